@@ -55,7 +55,7 @@ theorem sortSpec_short : ∀ (l : List (Item × List Int)), l.length < 2 → sor
   | _ :: _ :: _, h => by simp only [List.length_cons] at h; omega
 
 theorem specSort_pure (k : Item → Seq) (g : Item → List Int) (hk : ∀ x, callf a [[x]] = pure (k x))
-    (hg : ∀ x, keyOf (k x) = .ok (g x)) (xs : Seq) :
+    (hg : ∀ x, keyOf (k x) = .ok (g x)) (xs : Seq) (hu : keysUniform (xs.map g) = true) :
     specSort callf a xs = pure ((sortSpec (xs.map fun x => (x, g x))).map (·.1)) := by
   unfold specSort
   split
@@ -63,7 +63,9 @@ theorem specSort_pure (k : Item → Seq) (g : Item → List Int) (hk : ∀ x, ca
     rw [sortSpec_short _ (by simpa using h)]
     have : ((fun x : Item × List Int => x.1) ∘ fun x => (x, g x)) = id := rfl
     simp [List.map_map, this]
-  · simp only [specKeys_pure callf a k g hk hg xs, pure_bind]
+  · have h2 : List.map (fun x : Item × List Int => x.2) (List.map (fun x => (x, g x)) xs) = xs.map g := by
+      simp [List.map_map, Function.comp_def]
+    simp only [specKeys_pure callf a k g hk hg xs, pure_bind, h2, hu, if_true]
 
 end
 
